@@ -261,6 +261,10 @@ func runParams(c Cfg) *Result {
 		}
 		g.Commit()
 	}
+	g.Begin(g.nextTime())
+	g.formatsBoundary()
+	g.Commit()
+	g.GenesisRT("params: after the format boundary rows")
 	return g.Finish()
 }
 
@@ -349,6 +353,10 @@ func runIDs(c Cfg) *Result {
 			}
 		}
 	}
+	g.Begin(g.nextTime())
+	g.formatsBoundary()
+	g.Commit()
+	g.GenesisRT("ids: after the format boundary rows")
 	return g.Finish()
 }
 
@@ -394,10 +402,9 @@ func runGenesis(c Cfg) *Result {
 	res = g.Do(a.MsgCreateBatch(0, pid, "", []*base.BatchIssuance{{Recipient: a.Addr(1), TradableAmount: "10", RetiredAmount: "3", RetirementJurisdiction: "US", RetirementReason: longString("reason-", 512)}},
 		longString("batch-metadata-", 256), date(2001, 1, 1), date(2002, 1, 1), false, &base.OriginTx{Id: g.txHash(), Source: "polygon", Contract: ethAddr(1), Note: longString("note-", 512)}), "batch with 256-byte metadata and 512-byte notes")
 	g.bump("512-byte-notes")
+	g.formatsBoundary()
 	g.Commit()
-	if g.R.Bool() {
-		g.GenesisRT("after setup")
-	}
+	g.GenesisRT("after setup (format boundary rows)")
 
 	g.Begin(g.nextTime())
 	res = g.Do(a.MsgBasketCreate(2, "GEN", "genesis basket", "C", []string{cid}, true, chain.MinStartDate(date(1950, 1, 1)), g.basketFee(g.V())), "basket accepting the epoch batch")
